@@ -171,6 +171,7 @@ pub struct Ref {
     pub nx2: f64,
     pub ny2: f64,
     pub special: bool, // some input is NaN / inf
+    pub has_nan: bool,
 }
 
 pub fn reference(x: &[f64], y: &[f64]) -> Ref {
@@ -182,6 +183,7 @@ pub fn reference(x: &[f64], y: &[f64]) -> Ref {
         nx2: 0.0,
         ny2: 0.0,
         special: false,
+        has_nan: false,
     };
     for (a, b) in x.iter().zip(y.iter()) {
         let d = a - b;
@@ -192,6 +194,9 @@ pub fn reference(x: &[f64], y: &[f64]) -> Ref {
         r.ny2 += b * b;
         if !a.is_finite() || !b.is_finite() {
             r.special = true;
+        }
+        if a.is_nan() || b.is_nan() {
+            r.has_nan = true;
         }
     }
     r
@@ -770,7 +775,11 @@ fn cosine_verdict(out: &mut Out, policy: &Policy, g: f32, raw: f32, r: &Ref, acc
     }
     if r.special {
         // NaN in the inputs: every path must follow the recorded NaN policy; inf inputs are observed only
-        out.count("cosine_special_inputs_observed", 1);
+        if r.has_nan {
+            policy_check(out, policy, "cosine/nan-input", path, ty, n, raw);
+        } else {
+            out.count("cosine_inf_inputs_observed_not_judged", 1);
+        }
         return;
     }
     let zx = r.nx2 == 0.0;
